@@ -7,8 +7,48 @@
     [min burst window] bytes); afterwards the peer closes ([mode] 0), stalls (1) or fails (2).
     [grow] is the reallocation policy of [BytesMut::reserve], only assumed to keep its promise
     ([grow_ok]: the new capacity is at least [len + additional]). *)
-From KV Require Import Bytes RustInt Http1Read Http1ReadProofs.
+From KV Require Import Bytes RustInt Http1Read Http1ReadProofs Http1ReadParseProofs.
 Open Scope N_scope.
+
+(** parse (print g) = g.  [g] ranges over the request grammar [greq_ok]: a method token of at most
+    7 letters that starts like a known method, a non-empty target without SP/CR/LF, HTTP/1.0 or
+    1.1, header lines [name ":" SP^k value CRLF] (any k, including 0) with token names that are
+    unique up to case and values of visible ASCII/SP not starting with SP.  [expect] is the
+    specification: method, path, query, version, header list, authority (the target is judged by
+    the [http] crate's [Uri] parser, transcribed as [parse_uri]) and the first
+    [min content-length limit] bytes of whatever follows the blank line.  For every schedule that
+    delivers the head and the body, every growth function, every end mode, every trailing bytes
+    (the next request): the reader returns exactly that. *)
+Theorem parse_print : forall grow mode https dh (max_len : nat) limit (g : greq) rest (sched : list nat) e,
+  grow_ok grow -> sched_pos sched -> greq_ok g = true -> (length (print_head g) <= max_len)%nat ->
+  expect https dh limit g rest = Some e ->
+  (N.to_nat (N.min (body_length (g_method g) (g_hmap g)) limit) <= length rest)%nat ->
+  (length (print_head g) + N.to_nat (N.min (body_length (g_method g) (g_hmap g)) limit) <= sum_sched sched)%nat ->
+  exists sv, serve grow mode https dh max_len limit (print_head g ++ rest) sched = Ok sv /\ observed sv = Some e.
+Proof. exact parse_print_lemma. Qed.
+
+(** The parser alone: the printed head followed by anything parses to the printed request, and
+    the bytes after the blank line are exactly what followed (no byte lost or duplicated). *)
+Theorem parse_print_head : forall https dh (g : greq) extra host auth path query,
+  greq_ok g = true -> g_host dh g = Some host -> parse_uri https host (g_target g) = Some (auth, path, query) ->
+  parse_request https dh (print_head g ++ extra) =
+  Ok (mk_request (g_method g) path query (if g_v11 g then 11 else 10) (g_hmap g) auth extra).
+Proof. exact parse_request_print. Qed.
+
+(** Two arbitrary ways of cutting the same bytes into reads (and two growth functions, two end
+    modes) give the same request and the same body. *)
+Theorem schedule_independent : forall grow1 grow2 mode1 mode2 https dh (max_len : nat) limit (g : greq) rest (sched1 sched2 : list nat),
+  grow_ok grow1 -> grow_ok grow2 -> sched_pos sched1 -> sched_pos sched2 ->
+  greq_ok g = true -> (length (print_head g) <= max_len)%nat ->
+  expect https dh limit g rest <> None ->
+  (N.to_nat (N.min (body_length (g_method g) (g_hmap g)) limit) <= length rest)%nat ->
+  (length (print_head g) + N.to_nat (N.min (body_length (g_method g) (g_hmap g)) limit) <= sum_sched sched1)%nat ->
+  (length (print_head g) + N.to_nat (N.min (body_length (g_method g) (g_hmap g)) limit) <= sum_sched sched2)%nat ->
+  exists sv1 sv2,
+    serve grow1 mode1 https dh max_len limit (print_head g ++ rest) sched1 = Ok sv1 /\
+    serve grow2 mode2 https dh max_len limit (print_head g ++ rest) sched2 = Ok sv2 /\
+    observed sv1 = observed sv2 /\ observed sv1 <> None.
+Proof. exact schedule_independent_lemma. Qed.
 
 (** No blank line within the first [max_len] bytes (16 384 in kvarn): an error — for every read
     schedule (zero-length reads included), every growth function, every end mode. *)
@@ -69,3 +109,17 @@ Example body_exact_ex :
   | _ => False
   end.
 Proof. split; [repeat constructor|vm_compute; split; reflexivity]. Qed.
+
+Definition ex_req : greq :=
+  mk_greq (B "POST") (B "/p?x=1") true
+    [mk_hline (B "Host") 1 (B "ex.org"); mk_hline (B "Content-Length") 0 (B "5"); mk_hline (B "X-A") 3 (B "b c")].
+Example parse_print_ex :
+  greq_ok ex_req = true /\ sched_pos [1; 30; 7; 100]%nat /\
+  expect false None 65536 ex_req (B "helloGET /next") =
+    Some (mk_expected (B "POST") (B "/p") (Some (B "x=1")) 11
+            [(B "host", B "ex.org"); (B "content-length", B "5"); (B "x-a", B "b c")] (B "ex.org") (B "hello")) /\
+  option_map observed
+    (match serve vec_grow 0 false None (N.to_nat 16384) 65536 (print_head ex_req ++ B "helloGET /next") [1; 30; 7; 100]%nat
+     with Ok sv => Some sv | _ => None end) =
+  Some (expect false None 65536 ex_req (B "helloGET /next")).
+Proof. split; [vm_compute; reflexivity|]. split; [repeat constructor|]. split; vm_compute; reflexivity. Qed.
